@@ -10,6 +10,8 @@ import (
 	"go/format"
 	goparser "go/parser"
 	"go/token"
+	"os"
+	"path/filepath"
 	"runtime"
 	"runtime/debug"
 	"strconv"
@@ -46,7 +48,7 @@ func replayInput(family, src string) map[string]string {
 }
 
 func Run(c *core.Ctx) {
-	c.Rule = "inputs of parser.ParseString: every .templ file of the repository, the string literals of parser/v2/*_test.go and the txtar test data (raw and wrapped in a templ body), hand-written probes, their truncations, structure-aware mutations (token insert/delete/duplicate/swap, span delete, delimiter imbalance, byte replace, CRLF conversion, multi-byte text before expressions / in strings / in comment lines, blank lines, indentation), keyword layouts (" + strconv.Itoa(len(layoutForms)) + " forms - if / else if / for / switch / case / default / call / string, go-code, attribute, bool-attribute, spread, children and conditional-attribute expressions / element tags, constant attributes / templ, css, script headers / go blocks - with a hole on both sides of every token: after every keyword, operator, comma, semicolon, opening delimiter and in front of every operator, suffix operator (`...`, `++`), comma, semicolon, colon, closing brace / parenthesis / tag end; each hole filled with each of " + strconv.Itoa(len(layoutSeps)) + " separators - none, blanks, tab, LF, CRLF, CR, indented continuation lines, block / multi-line / multi-byte / line comments, NBSP - one at a time exhaustively, then several forms per file with random separators behind multi-byte / CRLF prologues, then the blank after a keyword / operator / delimiter and the blanks (or nothing) in front of a closing / suffix token of the repository templates replaced), thorough: every truncation and coverage-guided random bytes; distinct non-trivial = distinct inputs (by SHA-1) that parse, generate and gofmt and carry at least one recorded range judged by the extracted predicate, plus distinct inputs rejected with a positioned error"
+	c.Rule = "inputs of parser.ParseString: every .templ file of the repository, the string literals of parser/v2/*_test.go and the txtar test data (raw and wrapped in a templ body), hand-written probes, their truncations, structure-aware mutations (token insert/delete/duplicate/swap, span delete, delimiter imbalance, byte replace, CRLF conversion, multi-byte text before expressions / in strings / in comment lines, blank lines, indentation), keyword layouts (" + strconv.Itoa(len(layoutForms)) + " forms - if / else if / for / switch / case / default / call / string, go-code, attribute, bool-attribute, spread, children and conditional-attribute expressions / element tags, constant attributes / templ, css, script headers / go blocks - with a hole on both sides of every token: after every keyword, operator, comma, semicolon, opening delimiter and in front of every operator, suffix operator (`...`, `++`), comma, semicolon, colon, closing brace / parenthesis / tag end; each hole filled with each of " + strconv.Itoa(len(layoutSeps)) + " separators - none, blanks, tab, LF, CRLF, CR, indented continuation lines, block / multi-line / multi-byte / line comments, NBSP - one at a time exhaustively, then several forms per file with random separators behind multi-byte / CRLF prologues, then the blank after a keyword / operator / delimiter and the blanks (or nothing) in front of a closing / suffix token of the repository templates replaced), scanner-ILLEGAL pieces in open contexts (" + strconv.Itoa(len(illForms)) + " expression forms - @call, @call { }, {{ }}, {! }, { x... }, x?={ }, { x }, x={ x }, {{ }} in script, if / else if / for / switch / case, conditional attribute, css property, templ parameters - x " + strconv.Itoa(len(illContexts)) + " open contexts - argument, index, composite literal, function literal body / parameters, behind `func`, an operator, a period, a closer, unclosed, nested - x " + strconv.Itoa(len(illPieces)) + " pieces - invalid UTF-8 bytes, NUL, U+FEFF, illegal characters, unterminated rune / string / raw string / comment, malformed literals, literals with carriage returns - each file also cut at every byte from the site on, exhaustive, ordered by length), file prologues and encodings (" + strconv.Itoa(len(filePrologues)) + " prologues - UTF-8 BOM alone / twice / before blank lines, CRLF, comments, blank lines, blanks, tab, CR, form feed, NUL, NBSP and other Unicode spaces, UTF-16 / UTF-32 BOM bytes, comment lines - and " + strconv.Itoa(len(fileEncodings)) + " whole-file encodings - BOM + CRLF, CRLF, UTF-16 LE / BE, a BOM on every line - on hand-written files, one file with every layout form and repository templates; U+FEFF, NUL, NBSP, form feed elsewhere in the file; every one through parser.ParseString AND through parser.Parse of a file on disk holding the same bytes, positions judged against the bytes as given), order independence (the hand-written files and the scanner-based forms of the ILLEGAL-piece family parsed forwards and backwards in one goroutine, outcomes compared), thorough: every truncation and coverage-guided random bytes; distinct non-trivial = distinct inputs (by SHA-1) that parse, generate and gofmt and carry at least one recorded range judged by the extracted predicate, plus distinct inputs rejected with a positioned error"
 	c.Trusted = append(c.Trusted,
 		"specification spec/PosOf.v (pos_of, range_ok, name_range_ok) - what a faithful position is",
 		"extraction: ExtrOcamlBasic only; ocaml/driver.ml (hex line protocol)",
@@ -54,6 +56,7 @@ func Run(c *core.Ctx) {
 		"totality of the real parser and of go/parser/go/scanner is monitored on the generated inputs, not proved (DESIGN section 10)")
 	c.Assume = append(c.Assume,
 		"files are shorter than 2^31 bytes and 2^32 lines (NewExpression narrows int to int64/uint32)",
+		"go/scanner contract: every token but ILLEGAL ends inside the source (monitored on every token of the generated expressions); nothing is assumed about the literal of an ILLEGAL token",
 		"go/parser contract: positions of nodes found inside the wrapper function body lie at or after the wrapper prefix (monitored: extractor results are checked for 0 <= start <= end <= len on every parseGo expression of the accepted trees)",
 		"`progress` of every node parser (success advances, failure does not move backwards) - monitored on every call during the sweep",
 		"a template is `accepted` when parser.ParseString, generator.Generate and go/format.Source all succeed")
@@ -68,6 +71,7 @@ func Run(c *core.Ctx) {
 	phase("parse.Input tie", inputTie)
 	phase("extract tie", extractTie)
 	phase("SliceArgs/Func tie", goexprTie)
+	phase("scanner extractors tie", scanTie)
 	var extra []tcase
 	if !c.Quick() {
 		phase("coverage-guided fuzzing", func(c *core.Ctx) { extra = fuzz(c) })
@@ -549,7 +553,21 @@ func limitFor(n int) time.Duration {
 	return time.Duration(units) * 2 * time.Second
 }
 
-func parseGuard(src string) outcome {
+// scratch directory for the cases that go through parser.Parse (set up and removed by sweep)
+var fileDir string
+var fileSeq atomic.Int64
+
+func parseGuard(src string) outcome { return parseGuardVia(src, false) }
+
+func parseGuardVia(src string, viaFile bool) outcome {
+	path := ""
+	if viaFile {
+		path = filepath.Join(fileDir, fmt.Sprintf("f%d.templ", fileSeq.Add(1)))
+		if err := os.WriteFile(path, []byte(src), 0o644); err != nil {
+			return outcome{err: fmt.Errorf("harness: %w", err)}
+		}
+		defer os.Remove(path)
+	}
 	ch := make(chan outcome, 1)
 	go func() {
 		var o outcome
@@ -562,7 +580,11 @@ func parseGuard(src string) outcome {
 			o.dur = time.Since(start)
 			ch <- o
 		}()
-		o.tf, o.err = parser.ParseString(src)
+		if viaFile {
+			o.tf, o.err = parser.Parse(path)
+		} else {
+			o.tf, o.err = parser.ParseString(src)
+		}
 	}()
 	lim := limitFor(len(src))
 	select {
@@ -605,7 +627,7 @@ func process(tc tcase) caseResult {
 		res.status = "skipped"
 		return res
 	}
-	o := parseGuard(tc.src)
+	o := parseGuardVia(tc.src, tc.viaFile)
 	res.dur = o.dur
 	switch {
 	case o.hung:
@@ -625,7 +647,7 @@ func process(tc tcase) caseResult {
 	}
 	if o.dur > limitFor(len(tc.src)) {
 		// confirm on a second, undisturbed run (the machine is shared)
-		o2 := parseGuard(tc.src)
+		o2 := parseGuardVia(tc.src, tc.viaFile)
 		if o2.hung || o2.dur > limitFor(len(tc.src)) {
 			res.status = "slow"
 			res.detail = fmt.Sprintf("%v and %v for %d bytes", o.dur, o2.dur, len(tc.src))
